@@ -24,7 +24,7 @@ ID = "C16"
 LEVEL = "fault_enumeration"
 RULE = ("systematic product {child behaviour} x {exit path} x {moment} x {entry point} with fixed parameters, plus seeded scenarios with "
         "random latencies/instants/second cancellation; non-trivial = the child misbehaved or the exit was not the plain normal path")
-PROBES = ["retry_on_same_transport_after_failed_start", "large_messages_queued_at_exit", "requests_parked_behind_full_outgoing_queue_when_child_died", "exit_with_more_unread_output_than_reader_buffers", "child_state_checked_at_instant_of_exit", "client_object_reused", "exit_under_cancel_scope", "exit_under_task_cancel", "exit_under_fail_after", "exit_by_exception", "sigterm_ignored_then_killed",
+PROBES = ["server_env_asks_for_quiet_logging", "retry_on_same_transport_after_failed_start", "large_messages_queued_at_exit", "requests_parked_behind_full_outgoing_queue_when_child_died", "exit_with_more_unread_output_than_reader_buffers", "child_state_checked_at_instant_of_exit", "client_object_reused", "exit_under_cancel_scope", "exit_under_task_cancel", "exit_under_fail_after", "exit_by_exception", "sigterm_ignored_then_killed",
           "child_already_dead_at_exit", "cancel_landed_inside_aexit", "request_pending_when_child_died", "spawn_failed", "writer_blocked_at_exit",
           "flood_at_exit"]
 TIERS = {"quick": {"runs": 20000, "wall": 45.0}, "thorough": {"runs": 1500000, "wall": 560.0}}
@@ -141,7 +141,7 @@ def generate(rng: random.Random, tier: str) -> dict:
     if path == "task_cancel" and rng.random() < 0.25:
         sc = {"dt": rng.choice([0, 1, 100, 1023, 1024, 1500])}
     entry = rng.choice(ENTRIES)
-    return {"v": 1, "retry_after_failed_start": rng.random() < 0.5, "entry": entry, "child": _child_cfg(kind, rng), "body": body, "exit": _exit_for(path, moment, rng),
+    return {"v": 1, "quiet_env": rng.random() < 0.3, "retry_after_failed_start": rng.random() < 0.5, "entry": entry, "child": _child_cfg(kind, rng), "body": body, "exit": _exit_for(path, moment, rng),
             "second_cancel": sc, "moment": moment,
             # StdioClient objects may be entered again: an earlier (plain) conversation over the same object
             "earlier_conversations": (rng.choice([1, 2]) if entry == "StdioClient" and rng.random() < 0.4 else 0)}
@@ -244,7 +244,7 @@ def execute(scn: dict) -> dict:
 
         factory = ProcessFactory(sim, cfg)
         st["factory"] = factory
-        params = StdioParameters(command="sim-child", args=["--x"])
+        params = StdioParameters(command="sim-child", args=["--x"], env=({"LOG_LEVEL": "ERROR", "PATH": "/usr/bin"} if scn.get("quiet_env") else None))
         scope_box = {}
         loop = asyncio.get_running_loop()
 
@@ -401,7 +401,16 @@ def execute(scn: dict) -> dict:
             await anyio.sleep(5.0)
             st["tasks_left"] = sorted(t.get_name() for t in asyncio.all_tasks() if not t.done() and t is not asyncio.current_task())
 
+    import os as _os
+    try:
+        fds_before = len(_os.listdir("/proc/self/fd"))
+    except OSError:
+        fds_before = None
     info = run_sim(main, max_steps=600_000, max_vtime=500.0)
+    try:
+        fds_after = len(_os.listdir("/proc/self/fd")) if fds_before is not None else None
+    except OSError:
+        fds_after = None
     sim = info.sim
     out = {"violations": [], "digest": sim.digest(), "isig": sim.isig(), "faults": dict(sim.faults),
            "probes": dict(sim.probes), "vtime": info.vtime, "steps": info.steps, "harness": list(sim.harness_errors),
@@ -517,6 +526,12 @@ def execute(scn: dict) -> dict:
                 V("fabricated-result", kind, f"request returned {rec['outcome'][1]!r:.120} which the child never wrote")
         if rec["outcome"] and rec["outcome"][0] == "raise" and rec.get("child_alive_at_end") is False:
             probe("request_pending_when_child_died")
+    # real descriptors of this very process (the library may open some itself, e.g. /dev/null for a quiet child)
+    if fds_before is not None and fds_after is not None and fds_after > fds_before:
+        V("fd-left-open", f"real-descriptor:{path}:{kind}", f"the process had {fds_before} open descriptors before the run and {fds_after} after it "
+                                                            f"(path={path}, child={kind}, quiet_env={bool(scn.get('quiet_env'))}, entered={st['entered']})")
+    if scn.get("quiet_env"):
+        probe("server_env_asks_for_quiet_logging")
     never_ended = [rec for rec in st["requests"] if rec["outcome"] is None]
     if never_ended and child is not None and child.t_exit is not None and path in ("normal", "exception") and not st.get("t_trigger"):
         V("request-never-ended", kind, f"{len(never_ended)} of {len(st['requests'])} requests pending when the child died never ended (neither timeout nor error)")
